@@ -117,10 +117,20 @@ def _parents(root) -> Dict[int, ast.AST]:
     return out
 
 
-def _body_insensitive(stmts: List[ast.stmt], is_set=None) -> Optional[str]:
+def _body_insensitive(stmts: List[ast.stmt], is_set=None,
+                      only_subscripted=None) -> Optional[str]:
     """None if every statement is order-insensitive, else a description of
     the first order-sensitive statement."""
     for st in stmts:
+        # d[k] = <call-free value> into a mapping that is only ever
+        # subscripted (the loop form of dict((k, v) for k in a_set))
+        if isinstance(st, ast.Assign) and len(st.targets) == 1 and \
+                isinstance(st.targets[0], ast.Subscript) and \
+                isinstance(st.targets[0].value, ast.Name) and \
+                only_subscripted is not None and \
+                only_subscripted(st.targets[0].value.id) and \
+                not any(isinstance(x, ast.Call) for x in ast.walk(st.value)):
+            continue
         if isinstance(st, ast.Return) and (st.value is None or isinstance(
                 st.value, ast.Constant)):
             continue   # existential / universal test over the elements
@@ -146,8 +156,8 @@ def _body_insensitive(stmts: List[ast.stmt], is_set=None) -> Optional[str]:
                 continue
             return unparse(st).split('\n')[0]
         if isinstance(st, ast.If):
-            r = _body_insensitive(st.body, is_set) or \
-                _body_insensitive(st.orelse, is_set)
+            r = _body_insensitive(st.body, is_set, only_subscripted) or \
+                _body_insensitive(st.orelse, is_set, only_subscripted)
             if r:
                 return r
             continue
@@ -197,11 +207,26 @@ def analyse_function(ctx, kinds: SetKinds, f: Func) -> List[Site]:
     def is_set(e):
         return kinds.is_set(e, rd, node_for(e))
 
+    def only_subscripted(name):
+        for u in walk_no_nested(f.node, include_lambda=True):
+            if isinstance(u, ast.Name) and u.id == name and \
+                    isinstance(u.ctx, ast.Load):
+                up = parents.get(id(u))
+                if isinstance(up, ast.Subscript) and up.value is u:
+                    continue
+                if isinstance(up, ast.Attribute) and \
+                        up.attr in ('get', 'setdefault', 'pop'):
+                    continue
+                if isinstance(up, ast.Compare):
+                    continue
+                return False
+        return True
+
     for n in walk_no_nested(f.node, include_lambda=True):
         if isinstance(n, ast.For):
             if _is_sorted_call(n.iter) or not is_set(n.iter):
                 continue
-            why = _body_insensitive(n.body, is_set)
+            why = _body_insensitive(n.body, is_set, only_subscripted)
             if why is None:
                 sites.append(Site(f, n, n.iter, 'insensitive',
                                   'loop body only updates sets / asserts'))
